@@ -11,8 +11,9 @@ package csv
 func CSVDatabase$1
   props C08 C09 C10 C17
   refines parser.StopOnErr
-  modifies *
-  captured r.output != nil
+  requires @writer r.output != nil
+  modifies ghost(bufSticky, sinkFailed, sinkPend)
+  ensures @sink [C17] BufStep(r.output) && r == old(r)
 
 // ---------------------------------------------------------------------------------------------
 // The CSV reporters write through one csv.Writer; its error is sticky and is returned by Write and by Error()
@@ -60,4 +61,61 @@ func (CSVDatabaseReporter).Flush returns (err)
   modifies ghost(bufSticky, sinkFailed, sinkPend)
   ensures @sink [C17] BufStep(r.output)
   ensures @reports-loss [C17] (err != nil) == bufSticky[r.output] && (err == nil ==> sinkPend[bufSink[r.output]] == 0)
+
+// ---------------------------------------------------------------------------------------------
+// the csv commands
+// ---------------------------------------------------------------------------------------------
+
+func CSVLog returns (err)
+  props C08 C09 C10 C17
+  requires @sink c.ReporterConfig.Output != nil && !typeis(c.ReporterConfig.Output, "*bufio.Writer") && !typeis(c.ReporterConfig.Output, "*encoding/csv.Writer") && TreeInv()
+  modifies *
+  modifies ghost(cbLen, cbErr, cbNode, cbStop, cbRet, cbLineNo, cbLine, cbHeader, cbElems, cbNElems, scRd, scPos, privLo, evOf, accKey, accP, accN, accH, bufSink, bufSticky, sinkFailed, sinkPend, prLen, prSink, prArg, prArgs, tnodes, tdepth, tmax, tmapOf)
+  let out := payload(c.ReporterConfig.Output)
+  let lrd := payload(logStream)
+  let cc := c.ParserConfig.CommentChar
+  ensures @log-unreadable [C10] err == nil ==> !RdFailed(lrd)
+  ensures @log-malformed [C09] err == nil ==> (forall i int :: {RdLine(lrd, i)} 0 <= i && i < RdN(lrd) ==> !Malformed(lrd, i, cc))
+  ensures @reports-loss [C17] err == nil ==> (sinkFailed[out] ==> old(sinkFailed[out])) && sinkPend[out] == 0
+
+
+// csv database: the raw book, one row per entry in file order
+func CSVDatabase returns (err)
+  props C08 C09 C10 C17
+  requires @sink cdc.ReporterConfig.Output != nil && !typeis(cdc.ReporterConfig.Output, "*bufio.Writer") && !typeis(cdc.ReporterConfig.Output, "*encoding/csv.Writer")
+  calluse ParseStreamCallback#1 csvdb
+  modifies ghost(cbLen, cbErr, cbNode, cbStop, cbRet, cbLineNo, cbLine, cbHeader, cbElems, cbNElems, scRd, scPos, privLo, evOf, accKey, accP, accN, accH, bufSink, bufSticky, sinkFailed, sinkPend, prLen, prSink, prArg, prArgs, tnodes, tdepth, tmax, tmapOf)
+  let out := payload(cdc.ReporterConfig.Output)
+  let drd := payload(dbStream)
+  let cc := cdc.ParserConfig.CommentChar
+  ensures @book-unreadable [C10] err == nil ==> !RdFailed(drd)
+  ensures @book-malformed [C09] err == nil ==> (forall i int :: {RdLine(drd, i)} 0 <= i && i < RdN(drd) ==> !Malformed(drd, i, cc))
+  ensures @reports-loss [C17] err == nil ==> (sinkFailed[out] ==> old(sinkFailed[out])) && sinkPend[out] == 0
+
+// csv database-resolved: one row per (recipe, resolved element), recipes in strictly increasing order
+func CSVDatabaseResolved returns (err)
+  props C08 C09 C10 C17 C05
+  requires @sink cdc.ReporterConfig.Output != nil && !typeis(cdc.ReporterConfig.Output, "*bufio.Writer") && !typeis(cdc.ReporterConfig.Output, "*encoding/csv.Writer")
+  calluse Resolve#1 any
+  modifies *
+  modifies ghost(cbLen, cbErr, cbNode, cbStop, cbRet, cbLineNo, cbLine, cbHeader, cbElems, cbNElems, scRd, scPos, privLo, evOf, accKey, accP, accN, accH, bufSink, bufSticky, sinkFailed, sinkPend, prLen, prSink, prArg, prArgs, tnodes, tdepth, tmax, tmapOf)
+  let out := payload(cdc.ReporterConfig.Output)
+  let drd := payload(dbStream)
+  let cc := cdc.ParserConfig.CommentChar
+  ensures @book-unreadable [C10] err == nil ==> !RdFailed(drd)
+  ensures @book-malformed [C09] err == nil ==> (forall i int :: {RdLine(drd, i)} 0 <= i && i < RdN(drd) ==> !Malformed(drd, i, cc))
+  ensures @reports-loss [C17] err == nil ==> (sinkFailed[out] ==> old(sinkFailed[out])) && sinkPend[out] == 0
+  loop 1 {
+    invariant @count i == #it && len(keys) == #n && fresh(arr(keys)) && nl == at(pre1, nl) && mapval(nl) == at(pre1, mapval(nl))
+    invariant @copied forall j int :: {keys[j]} 0 <= j && j < #it ==> keys[j] == #ord[j]
+  }
+  ghost after call 1 Strings {
+    lassert @keys-perm forall p int :: {keys[p]} 0 <= p && p < len(keys) ==> keys[p] in nl && keys[p] == at(call, elems(keys))[PermBack(at(call, elems(keys)), elems(keys), p)]
+    assert @keys forall p int :: {keys[p]} 0 <= p && p < len(keys) ==> keys[p] in nl
+    forget call
+  }
+  loop 2 {
+    invariant @inv r == at(pre2, r) && r.output != nil && since(pre2, BufStep(r.output)) && bufSticky[r.output] == at(pre2, bufSticky[r.output]) && bufSink[r.output] == out && nl == at(pre2, nl) && mapval(nl) == at(pre2, mapval(nl)) && (forall k string :: {nl[k]} k in nl ==> nl[k] != nil)
+    invariant @keys forall p int :: {keys[p]} 0 <= p && p < len(keys) ==> keys[p] in nl
+  }
 @*/
